@@ -69,6 +69,22 @@ def run_case(case, ctx):
 
     nmax = min(3 * m + 8, cap)
     segs = 0
+    # polluting preface: the same RAM count with other step costs (same
+    # period, forward cost 4x smaller / larger; default costs) is planned
+    # first in this process, so that anything the planners keep between
+    # calls is stale for the sweep below
+    pre_n = min(max(2 * m + 5, 30), 400)
+    for v in ([uf / 4, ub, wd / 4, rd / 4], [uf * 4, ub, wd * 4, rd * 4],
+              [1, 1, 2, 2], [uf, ub * 3, wd, rd]):
+        for cls in ("PeriodicDiskRevolve", "Revolve", "DiskRevolve"):
+            try:
+                S.run_stream_case({"cfg": {"cls": cls, "n": pre_n,
+                                           "ram": ram, "costs": v},
+                                   "passes": 1, "observe": None})
+                counters["preface_streams"] = \
+                    counters.get("preface_streams", 0) + 1
+            except Exception:
+                pass
     ns = list(range(1, nmax + 1))
     if 3 * m + 8 > cap and m + 2 <= 4000:
         # also a few n beyond the cap so that at least one period is seen
